@@ -9,6 +9,7 @@
 //! With `--inputs FILE` (JSON lines) the generator is skipped: replay / corpus.
 mod c03;
 mod c14;
+mod c13;
 mod c15;
 mod c17;
 mod c19;
@@ -42,6 +43,7 @@ fn module(prop: &str) -> PropModule {
         "C03" => c03::module(),
         "C17" => c17::module(),
         "C19" => c19::module(),
+        "C13" => c13::module(),
         "C01" => PropModule { coq_module: "Check_Norm", runner: "Check_Norm.run_C01", generate: |r, t| libgen::generate_mixed(r, t, 320), execute: lib_stage::execute, label: libgen::label },
         "C02" => PropModule { coq_module: "Check_Norm", runner: "Check_Norm.run_C02", generate: |r, t| libgen::generate_mixed(r, t, 320), execute: lib_stage::execute, label: libgen::label },
         "C06" => PropModule { coq_module: "Check_Norm", runner: "Check_Norm.run_C06", generate: |r, t| libgen::generate_mixed(r, t, 320), execute: lib_stage::execute, label: libgen::label },
